@@ -190,26 +190,52 @@ def through_a_session(res, r, tier, todo):
     from gen import session_gen as SG
     per = 25 if tier == 'quick' else 400
     base_caps = dict(S.DEFAULT_CFG['caps'])
-    for local4 in (True, False):
-        for peer4 in (True, False):
-            mode = local4 and peer4
-            pick = [(c, so) for c, so in todo if c['asn4'] == mode and not c['addpath'] and len(so['hex']) // 2 + 19 <= 4096]
-            pick = r.sample(pick, min(per, len(pick)))
+    from oracles import parse_open_wire
+    combos = [(l4, p4, None) for l4 in (True, False) for p4 in (True, False)]
+    # ... and the same after an EARLIER session of the same agent with a peer of the other kind (the router was upgraded /
+    # replaced): the width is the one the two OPENs of THIS session agreed on, read off the wire
+    combos += [(True, True, False), (True, False, True)]
+    for local4, peer4, earlier4 in combos:
             conf = {'caps': dict(base_caps, four_bytes_as=local4)}
             sim = S.Sim(conf)
             ras = sim.cfg['remote_as']
-            for ev in ({'k': 'boot'}, {'k': 'connok', 'c': 0},
-                       {'k': 'chunk', 'c': 0, 'hex': SG.frame(1, SG.open_body(ras, 180, caps=SG.std_caps(ras, as4=peer4))).hex()},
-                       {'k': 'chunk', 'c': 0, 'hex': SG.KEEPALIVE.hex()}):
-                o = sim.step(ev)
+            o = sim.step({'k': 'boot'})
+            cid = 0
+            for n, p4 in enumerate(([earlier4] if earlier4 is not None else []) + [peer4]):
+                for ev in ({'k': 'connok', 'c': cid},
+                           {'k': 'chunk', 'c': cid, 'hex': SG.frame(1, SG.open_body(ras, 180, caps=SG.std_caps(ras, as4=p4))).hex()},
+                           {'k': 'chunk', 'c': cid, 'hex': SG.KEEPALIVE.hex()}):
+                    if sim.enabled(ev):
+                        o = sim.step(ev)
+                if earlier4 is not None and n == 0:
+                    sim.step({'k': 'lost', 'c': cid})
+                    for _ in range(6):
+                        w = sim.world
+                        if any(c.state == 'connecting' for c in w.connectors):
+                            break
+                        due = [S.TIMER_NAMES.get(getattr(c.func, '__name__', None)) for c in w.due()]
+                        due = [d for d in due if d]
+                        if due:
+                            sim.step({'k': 'fire', 't': due[0]})
+                            continue
+                        times = [c.time for c in w.calls if c.time > w.now]
+                        if not times:
+                            break
+                        sim.step({'k': 'advance', 'dt': min(times) - w.now})
+                    cid = len(sim.world.connectors) - 1
             if o['state'] != 'ESTABLISHED':
-                res.disagree('session setup for the reference encodings', {'cfg': conf, 'peer_as4': peer4}, o['state'], 'ESTABLISHED')
+                res.disagree('session setup for the reference encodings', {'cfg': conf, 'peer_as4': peer4, 'earlier': earlier4}, o['state'], 'ESTABLISHED')
                 continue
+            ours = [w for w in sim.world.connectors[cid].written if w[18] == 1]
+            mine = bool(ours) and any(cc == 65 for cc, _ in parse_open_wire(ours[-1])['caps'])
+            mode = mine and peer4
+            pick = [(c, so) for c, so in todo if c['asn4'] == mode and not c['addpath'] and len(so['hex']) // 2 + 19 <= 4096]
+            pick = r.sample(pick, min(per, len(pick)))
             for c, so in pick:
                 body = bytes.fromhex(so['hex'])
-                if not sim.enabled({'k': 'chunk', 'c': 0}):
+                if not sim.enabled({'k': 'chunk', 'c': cid}):
                     break
-                o = sim.step({'k': 'chunk', 'c': 0, 'hex': SG.frame(2, body).hex()})
+                o = sim.step({'k': 'chunk', 'c': cid, 'hex': SG.frame(2, body).hex()})
                 exp = so['expect']
                 rep = [x for x in o['outs'] if x[0] == 'handler' and x[1] in ('update', 'update_error')]
                 res.stats.case(('ref-session', so['hex'], local4, peer4), sample=None)
@@ -222,5 +248,5 @@ def through_a_session(res, r, tier, todo):
                     ok = len(rep) == 1 and rep[0][1] == 'update_error'
                     what = 'a malformed reference UPDATE was not reported to the application as an error'
                 if not ok:
-                    res.fail('C09', what, {'case': c, 'hex': so['hex'], 'session': {'local_four_bytes_as': local4, 'peer_capability_65': peer4},
+                    res.fail('C09', what, {'case': c, 'hex': so['hex'], 'session': {'local_four_bytes_as': local4, 'peer_capability_65': peer4, 'earlier_session_peer_capability_65': earlier4},
                                            'reported': rep, 'expected': exp}, key='session-' + ('as4' if mode else 'as2'))
